@@ -499,7 +499,7 @@ def to_when_call(tokens):
 
 def to_match_expr(tokens):
     if "expr" in tokens:
-        return Call("and", [tokens["cond"], tokens["expr"]])
+        return Call("and", [tokens["cond"], tokens["expr"]], {})
     return tokens["cond"]
 
 
